@@ -31,6 +31,26 @@ def derive_seed(*parts) -> int:
     return int.from_bytes(h[:6], "big")
 
 
+_EXC_MUTE = set()
+
+
+def _infretis_site(exc):
+    """'file:function' of the innermost infretis frame if the exception arose below it (no /verif frame after it)."""
+    import traceback as _tb
+
+    frames = _tb.extract_tb(exc.__traceback__)
+    last_inf, last_verif = None, None
+    for i, fr in enumerate(frames):
+        fn = fr.filename.replace("\\", "/")
+        if "/infretis/" in fn and "/verif/" not in fn:
+            last_inf = (i, fn.split("/infretis/")[-1] + ":" + fr.name)
+        if "/verif/" in fn:
+            last_verif = i
+    if last_inf and (last_verif is None or last_inf[0] > last_verif):
+        return last_inf[1]
+    return None
+
+
 _JOBS = []  # inherited by forked workers, so strategies / bodies need not be picklable
 
 
@@ -73,6 +93,12 @@ def _one_shard(args):
                     rec.cls("muted:" + v.signature)
                     return
                 raise
+            except Exception as exc:  # noqa: BLE001
+                site = _infretis_site(exc)
+                if site and f"EXC:{type(exc).__name__}:{site}" in muted:
+                    rec.cls("muted:EXC:" + site)
+                    return
+                raise
 
         try:
             prop()
@@ -89,10 +115,17 @@ def _one_shard(args):
         except Unsatisfiable as e:
             rec.error(f"{name}: generator unsatisfiable: {e}")
             break
-        except Exception:
-            # an exception that is not an oracle verdict: either the code under
-            # test raised on an in-domain input (the body should have turned it
-            # into a Violation) or the harness is broken -> harness error.
+        except Exception as exc:
+            # An exception that is not an oracle verdict. If it was raised inside infretis (innermost
+            # non-library frame is in the package under test, not in /verif) on an in-domain input it is a
+            # finding, bucketed by exception type and innermost infretis frame; otherwise a harness error.
+            site = _infretis_site(exc)
+            if site:
+                sig = f"EXC:{type(exc).__name__}:{site}"
+                rec.violation(sig, f"{exc!r} on case {str(jsonable(state['last']))[:1200]}", {"part": name, "case": jsonable(state["last"]), "extra": None})
+                muted.add(sig)
+                _EXC_MUTE.add(sig)
+                continue
             rec.error(
                 f"{name}: unexpected exception on case "
                 f"{str(jsonable(state['last']))[:1500]}\n" + traceback.format_exc()
